@@ -127,12 +127,13 @@ func init() {
 
 // fctx is the translation of one function.
 type fctx struct {
-	k     *ktrans
-	fn    *kfunc
-	file  *srcFile
-	env   map[*ast.Object]*vinfo
-	used  map[string]bool // Coq names taken in this function
-	named []*vinfo        // named results
+	k      *ktrans
+	fn     *kfunc
+	file   *srcFile
+	env    map[*ast.Object]*vinfo
+	used   map[string]bool     // Coq names taken in this function
+	named  []*vinfo            // named results
+	consts map[*ast.Object]val // local constants
 }
 
 func (c *fctx) fresh(base string) string {
@@ -296,6 +297,11 @@ func (c *fctx) ident(x *ast.Ident) (val, error) {
 				v.index.used = true
 			}
 			return val{typ: v.typ, coq: v.term(), sv: v, ptr: v.readonly && v.typ.k == tStruct}, nil
+		}
+	}
+	if x.Obj != nil {
+		if v, ok := c.consts[x.Obj]; ok {
+			return v, nil
 		}
 	}
 	switch x.Name {
